@@ -39,6 +39,9 @@ def run(fb, rep, tier):
     _run(fb, rep, tier)
     verdicts_and_bounds(fb, rep)
     objective_sign_tests(fb, rep)
+    slack_completeness(fb, rep)
+    offset_sense(fb, rep)
+    fixed_kept_variable(fb, rep)
     dual_transfer(fb, rep)
 
 
@@ -399,3 +402,125 @@ def objective_sign_tests(fb, rep):
     if ctl < 1:
         raise AnalysisBroken('R08.8: the positive control (raw_objective_sign_test) did not fire')
     rep.ok('R08.8', 'control|raw_objective_sign_test', 'units/controls.cpp', 'positive control fires', nontrivial=False)
+
+
+def slack_completeness(fb, rep):
+    """R08.9: a post-step that keeps the eliminated column (member m_col) and re-inserts the eliminated variable (assigns x[m_j]) belongs to a
+    reduction that rewrote the other rows of that column and shifted their sides by the contribution of x_j.  Their activities in the original
+    LP contain that contribution again: execute() writes s[m_col.index(k)] for the rows of the column.  (F80, F81)"""
+    rep.rule('R08.9', 'post-steps that re-insert an eliminated column with several rows (m_col) update the slacks of all rows of that column', floor=4)
+    k = 0
+    for cn, c in sorted(fb.classes.items()):
+        if not re.match(r'soplex::SPxMainSM<double>::\w+PS$', cn) or 'm_col' not in [fl['n'] for fl in c['fields']]:
+            continue
+        ex = [f for f in fb.methods_of(cn) if f.short == 'execute' and f.nodes]
+        if not ex:
+            continue
+        e = ex[0]
+        reinserts = any(n.k == 'BinaryOperator' and n.o == '=' and render(strip(n.kids[0])) == 'x[m_j]' for n in e.nodes)
+        if not reinserts:
+            continue
+        k += 1
+        sw = [n for n in e.nodes if n.k in ('BinaryOperator', 'CompoundAssignOperator') and n.o in ('=', '+=', '-=') and render(strip(n.kids[0])).startswith('s[m_col.index(')]
+        rep.check(bool(sw), 'R08.9', '%s::execute|slacks of m_col' % cn.split('::')[-1], e.where(), 'writes s[m_col.index(k)] (line %d)' % (sw[0].l if sw else 0),
+                  'execute() restores x[m_j] but never touches the slacks of the rows of column j (s[m_col.index(k)]): the reduction shifted the sides of these rows by the contribution of x_j, '
+                  'so unsimplifiedSlacks() differs from A x in each of them')
+    if k < 4:
+        raise AnalysisBroken('R08.9: only %d post-steps with m_col that re-insert x[m_j] found' % k)
+
+
+def offset_sense(fb, rep):
+    """R08.10: the objective offset of the simplifier is counted in the user's sense.  Every addObjoffset() argument is built from the raw
+    coefficient lp.obj(..) (directly or through a local defined from it), never from a member that holds the sense-normalised coefficient
+    (initialised by `sense == MINIMIZE ? obj : -obj`) or from maxObj().  (F82)"""
+    rep.rule('R08.10', 'every addObjoffset() argument is built from the raw objective coefficient lp.obj(), not from a sense-normalised one', floor=4)
+    SENSE = re.compile(r'MINIMIZE|MAXIMIZE|maxSense|m_thesense')
+    k = 0
+    for f in sorted(fb.funcs.values(), key=lambda g: (g.file, g.line)):
+        if not f.file.endswith(('spxmainsm.hpp', 'spxmainsm.h')) or not f.name.startswith('soplex::') or not f.nodes:
+            continue
+        for n in f.nodes:
+            if not (n.k == 'CXXMemberCallExpr' and n.short == 'addObjoffset' and n.args()):
+                continue
+            k += 1
+            a = n.args()[0]
+            # members initialised by a sense ternary in this constructor
+            normalised = set()
+            for fld, init, _w in (f.inits or []):
+                if init is not None and any(x.k == 'ConditionalOperator' and SENSE.search(render(x.kid('cond'))) for x in init.walk()):
+                    normalised.add(fld.split('::')[-1])
+            used = set(x.short for x in a.walk() if x.k == 'MemberExpr' and x.short in normalised)
+            usesmax = any(x.is_call() and x.short == 'maxObj' for x in a.walk())
+            raw = any(x.is_call() and x.short == 'obj' for x in a.walk())
+            if not raw:
+                for x in a.walk():
+                    if x.k == 'DeclRefExpr' and x.dk == 'local':
+                        d = [v for v in f.nodes if v.k == 'VarDecl' and v.u == x.u and v.c]
+                        if d and any(y.is_call() and y.short == 'obj' for y in d[0].kids[0].walk()):
+                            raw = True
+            rep.check(raw and not used and not usesmax, 'R08.10', '%s|addObjoffset(%s)' % (f.name.replace('soplex::SPxMainSM<double>::', '')[:40], render(a)[:30]), '%s:%d' % (f.file, n.l),
+                      'built from lp.obj()', 'the offset `%s` is built from %s: for a maximisation problem the offset gets the wrong sign'
+                      % (render(a)[:60], ('the sense-normalised member ' + sorted(used)[0]) if used else 'maxObj()' if usesmax else 'something other than lp.obj()'))
+    if k < 4:
+        raise AnalysisBroken('R08.10: only %d addObjoffset calls found' % k)
+
+
+def fixed_kept_variable(fb, rep):
+    """R08.11: AggregationPS::execute decides whether the kept variable sits at a bound it only inherited from the aggregated variable (then it
+    becomes BASIC).  A kept variable that is FIXED in the reduced LP, equals its own old lower bound, differs from its own old upper bound and has
+    a reduced cost of the sign of a lower bound must NOT become basic.  Decided by pruning the CFG of execute() under exactly this assumption
+    (a local bool that only receives decided values is propagated) and testing whether `cStatus[active_idx] = BASIC` is still reachable.  (F83)"""
+    rep.rule('R08.11', 'AggregationPS::execute: a kept variable that is FIXED on its own old bound with a reduced cost of that bound\'s sign does not become basic', floor=1)
+    f = fb.one('soplex::SPxMainSM<double>::AggregationPS::execute')
+
+    def hook(n, txt):
+        t = txt.replace('this->', '').replace(' ', '')
+        if re.fullmatch(r'\(?cStatus\[active_idx\]==FIXED\)?', t):
+            return True
+        if re.fullmatch(r'\(?cStatus\[active_idx\]==(ON_UPPER|ON_LOWER|BASIC|ZERO)\)?', t):
+            return False
+        m = re.match(r'\(?(NE|EQ)\(x\[active_idx\],(m_oldupper|m_oldlower),', t)
+        if m:
+            eq_lower = (m.group(2) == 'm_oldlower')
+            return eq_lower if m.group(1) == 'EQ' else (not eq_lower)
+        if re.fullmatch(r'\(?r\[active_idx\]>=\(?0(\.0)?\)?\)?', t):
+            return True
+        if re.fullmatch(r'\(?r\[active_idx\]<=\(?0(\.0)?\)?\)?', t) or re.fullmatch(r'\(?r\[active_idx\]<\(?0(\.0)?\)?\)?', t):
+            return False
+        return None
+    atoms = {}
+    for _ in range(3):
+        A = Assume(atoms=dict(atoms), hook=hook)
+        g = Graph(f, A)
+        live = g.reach(g.entry)
+        changed = False
+        # bool locals all of whose reachable definitions are decided and agree
+        for d in f.nodes:
+            if d.k != 'VarDecl' or d.t not in ('bool', 'const bool') or d.n in atoms:
+                continue
+            vals = []
+            if d.c:
+                vals.append(A.eval(d.kids[0]))
+            for x in f.nodes:
+                if x.k == 'BinaryOperator' and x.o == '=' and strip(x.kids[0]).k == 'DeclRefExpr' and strip(x.kids[0]).u == d.u:
+                    try:
+                        b = g.block_of(x)
+                    except Exception:
+                        b = None
+                    if b is None or b in live:
+                        vals.append(A.eval(x.kids[1]))
+            if vals and all(v is False for v in vals) or vals and all(v is True for v in vals):
+                atoms[d.n] = vals[0]
+                changed = True
+        if not changed:
+            break
+    A = Assume(atoms=dict(atoms), hook=hook)
+    g = Graph(f, A)
+    live = g.reach(g.entry)
+    basic = [n for n in f.nodes if n.k == 'BinaryOperator' and n.o == '=' and render(strip(n.kids[0])) == 'cStatus[active_idx]' and render(strip(n.kids[1])).endswith('BASIC')]
+    if not basic:
+        raise AnalysisBroken('R08.11: the assignment cStatus[active_idx] = BASIC was not found in AggregationPS::execute')
+    reach = [n for n in basic if g.block_of(n) in live]
+    rep.check(not reach, 'R08.11', 'AggregationPS::execute|FIXED at own lower bound', f.where(), 'cStatus[active_idx] = BASIC is unreachable under the assumption (propagated locals: %s)' % sorted(atoms),
+              'with the kept variable FIXED, equal to its own old lower bound (old upper bound different) and a non-negative reduced cost, execute() still reaches '
+              '`cStatus[active_idx] = BASIC` (line %d): the kept variable becomes basic and the aggregated one nonbasic with a reduced cost of the wrong sign' % (reach[0].l if reach else 0))
